@@ -124,7 +124,16 @@ def in_domain(c):
 
 
 def _unj(v):
-    return _copy.deepcopy(v)
+    """inverse of canon.jval / pynorm on the generated values ({"float": repr} and {"tuple": [...]} tags)"""
+    if isinstance(v, dict):
+        if set(v) == {"float"} and isinstance(v["float"], str):
+            return float(v["float"])
+        if set(v) == {"tuple"} and isinstance(v["tuple"], list):
+            return tuple(_unj(x) for x in v["tuple"])
+        return {k: _unj(x) for k, x in v.items()}
+    if isinstance(v, list):
+        return [_unj(x) for x in v]
+    return v
 
 
 def _set_data(e, data):
@@ -739,6 +748,22 @@ def enumerate_mutations(c, rng, per_kind=2):
                                                                     "wire": wi, "pos": k})
     for kind, lst in moves.items():
         out.extend(pick(lst, per_kind + (2 if kind == "move_same_inst" else 0)))
+
+    def _ipname(li, di, pr):
+        d_ = c["libraries"][li]["definitions"][di]
+        k_ = d_["instances"][pr[1]]
+        r_ = k_["ref"]
+        return k_["name"], c["libraries"][r_[0]]["definitions"][r_[1]]["ports"][pr[2]]["name"]
+    collm = []
+    for mv in moves.get("move_other_inst", []):
+        d_ = c["libraries"][mv["lib"]]["definitions"][mv["def"]]
+        src = d_["cables"][mv["cable"]]["wires"][mv["wire"]][mv["pos"]]
+        if src[0] == "i" and mv["to"][0] == "i" and src[3] == mv["to"][3]:
+            i1, p1 = _ipname(mv["lib"], mv["def"], src)
+            i2, p2 = _ipname(mv["lib"], mv["def"], mv["to"])
+            if _join_collide(i1, p1, i2, p2):
+                collm.append(dict(mv, colliding=True))
+    out.extend(pick(collm, 3))
     # one connection added / dropped / moved to another net
     extra = {"connect_free": [], "disconnect": [], "move_to_other_wire": []}
     for li, di in sites:
@@ -791,11 +816,23 @@ def enumerate_mutations(c, rng, per_kind=2):
             if _shape(cand) == _shape(cur) and not cand["instances"]:
                 rep.append({"op": "repoint", "lib": li, "def": di, "inst": ki, "to": [lj, dj]})
     out.extend(pick(rep, per_kind + 1))
+    # re-pointing between definitions whose "<library><sep><definition>" texts coincide: always taken
+    coll = [r_ for r_ in rep if _join_collide(
+        c["libraries"][c["libraries"][r_["lib"]]["definitions"][r_["def"]]["instances"][r_["inst"]]["ref"][0]]["name"],
+        c["libraries"][c["libraries"][r_["lib"]]["definitions"][r_["def"]]["instances"][r_["inst"]]["ref"][0]]["definitions"][
+            c["libraries"][r_["lib"]]["definitions"][r_["def"]]["instances"][r_["inst"]]["ref"][1]]["name"],
+        c["libraries"][r_["to"][0]]["name"], c["libraries"][r_["to"][0]]["definitions"][r_["to"][1]]["name"])]
+    for r_ in pick(coll, 3):
+        out.append(dict(r_, colliding=True))
     t = c.get("top")
     if t is not None and t["ref"] and t["ref"][0] != "ext":
         cands = [s for s in sites if list(s) != list(t["ref"])]
         for s in pick(cands, 1):
             out.append({"op": "repoint_top", "to": list(s)})
+        tl, td = t["ref"]
+        for s in pick([s for s in cands if _join_collide(c["libraries"][tl]["name"], c["libraries"][tl]["definitions"][td]["name"],
+                                                         c["libraries"][s[0]]["name"], c["libraries"][s[0]]["definitions"][s[1]]["name"])], 1):
+            out.append({"op": "repoint_top", "to": list(s), "colliding": True})
     # properties
     withp = [s for s in insts if c["libraries"][s[0]]["definitions"][s[1]]["instances"][s[2]].get("props")]
     nop = [s for s in insts if c["libraries"][s[0]]["definitions"][s[1]]["instances"][s[2]].get("props") is None]
@@ -1639,7 +1676,7 @@ SHAPES = [
 PROP_KEYS = ["identifier", "value", "original_identifier", "owner"]
 
 
-def decorate(nl, rng, twins=True, props=True, oids=True):
+def decorate(nl, rng, twins=True, props=True, oids=True, collide=True):
     """Add what gen.gen_netlist does not: EDIF.properties on instances, twin definitions (same port
     shape, so that an instance can be re-pointed keeping its connections), original identifiers."""
     import spydrnet as sdn
@@ -1669,6 +1706,8 @@ def decorate(nl, rng, twins=True, props=True, oids=True):
                     q.create_pins(len(p.pins))
                     if len(p.pins) == 1:
                         q.is_scalar = p.is_scalar
+    if collide and rng.random() < 0.6:
+        _decorate_collisions(nl, rng)
     if rng.random() < 0.1:
         # a named port without pins (legal through the API)
         ds = [d for lib in nl.libraries for d in lib.definitions]
@@ -1680,6 +1719,69 @@ def decorate(nl, rng, twins=True, props=True, oids=True):
                 for e in list(d.ports) + list(d.cables) + list(d.children) + [d]:
                     if rng.random() < 0.05:
                         e["EDIF.original_identifier"] = "o[%d]" % rng.randrange(9)
+
+
+SEPS = [".", "/", ":", "_", " ", ""]
+
+
+def _decorate_collisions(nl, rng):
+    """Names that contain the separator characters a lazy key-join would use, arranged so that DISTINCT
+    pairs concatenate to the same text:
+      (library L, definition a<sep>b)  and  (library L<sep>a, definition b)   — port-compatible twins of a leaf
+        definition, some instances of the leaf re-pointed to the first so that a re-pointing to the second is
+        a single mutation;
+      (instance I, port q<sep>r)  and  (instance I<sep>q, port r)             — two instances of one leaf
+        definition inside the same parent, the first pin connected, the second free."""
+    import spydrnet as sdn
+    sep = rng.choice(SEPS)
+    tag = str(rng.randrange(10))
+    leafs = [d for lib in nl.libraries for d in lib.definitions if not d.children and d.ports and d.name and d.library.name]
+    if not leafs:
+        return
+    d = rng.choice(leafs)
+    lib = d.library
+    a_, b_ = "ca" + tag, "cb" + tag
+    libnames = [x.name for x in nl.libraries]
+    if lib.name + sep + a_ not in libnames and a_ + sep + b_ not in [x.name for x in lib.definitions]:
+        lib2 = nl.create_library(name=lib.name + sep + a_)
+        t1 = lib.create_definition(name=a_ + sep + b_)
+        t2 = lib2.create_definition(name=b_)
+        for t in (t1, t2):
+            for p in d.ports:
+                q = t.create_port(name=p.name)
+                q.direction = p.direction
+                if len(p.pins):
+                    q.create_pins(len(p.pins))
+                if len(p.pins) <= 1:
+                    q.is_scalar = p.is_scalar
+        for k in list(d.references):
+            if k.parent is not None and rng.random() < 0.6:
+                k.reference = t1
+    # instance / port
+    parents = [(m, k) for lb in nl.libraries for m in lb.definitions for k in m.children
+               if k.name and k.reference is d]
+    if parents:
+        m, k = rng.choice(parents)
+        pn = [p.name for p in d.ports]
+        q_, r_ = "cq" + tag, "cr" + tag
+        if q_ + sep + r_ not in pn and r_ not in pn and k.name + sep + q_ not in [x.name for x in m.children]:
+            p1 = d.create_port(name=q_ + sep + r_)
+            p1.direction = sdn.IN
+            p1.create_pins(1)
+            p2 = d.create_port(name=r_)
+            p2.direction = sdn.IN
+            p2.create_pins(1)
+            m.create_child(name=k.name + sep + q_, reference=d)
+            cb = m.create_cable(name=_fresh([c.name for c in m.cables], "Ncol"))
+            cb.create_wires(1)
+            cb.wires[0].connect_pin(k.pins[p1.pins[0]])
+
+
+def _join_collide(x1, y1, x2, y2):
+    """(x1, y1) != (x2, y2) but x1 + sep + y1 == x2 + sep + y2 for one of the usual separators"""
+    if None in (x1, y1, x2, y2) or (x1, y1) == (x2, y2):
+        return False
+    return any(x1 + sp + y1 == x2 + sp + y2 for sp in SEPS)
 
 
 def gen_case_netlist(rng, shape=None):
@@ -1804,7 +1906,8 @@ def shard(seed, idx, n_netlists, deadline_s, tier):
                     res.dist("exhaustive-sites-netlists")
                 ms = enumerate_mutations(ca, rng, per_kind=pk)
                 for m in ms:
-                    handle({"a": ca, "copy": kind, "mut": [m]}, kind + "+" + m["op"] + (":" + m["kind"] if "kind" in m else ""))
+                    handle({"a": ca, "copy": kind, "mut": [m]}, kind + "+" + m["op"] + (":" + m["kind"] if "kind" in m else "")
+                           + (":colliding-names" if m.get("colliding") else ""))
             # 3. the original itself carries oddities (assignment names, wildcard names), copy faithful
             odd = []
             insts = [(li, di, ki) for li, lib in enumerate(ca["libraries"]) for di, d in enumerate(lib["definitions"])
@@ -1901,7 +2004,8 @@ def _run_single(ctx, x, label):
 def run(ctx):
     ok = L.check_obligations(ctx, "Spydr/Compare", MODULES, ["drv_compare"], "Spydr/Compare/Audit.lean", THEOREMS)
     ctx.rule = ("netlists: gen.gen_netlist in 7 shapes (small/default/wide/deep/dense/one-library/partly-unnamed) plus "
-                "EDIF.properties, twin definitions and original identifiers; copies: rebuild through the API, clone(), "
+                "EDIF.properties, twin definitions, original identifiers and names with separator characters whose "
+                "(library, definition) / (instance, port) pairs collide as joined text; copies: rebuild through the API, clone(), "
                 "EDIF and Verilog compose+parse (of the generated netlist and of the already-read netlist); every kind of "
                 "single mutation of the copy from the statement's list at randomly chosen sites, plus renames / unnaming / "
                 "reordering / original-identifier edits / SDN_Assignment_ and wildcard names for the correspondence; "
